@@ -41,6 +41,11 @@ def run(tier):
         else:
             vf.log("[tlc] ScanImpl/nohalf: refinement violated as expected (negative control)")
     raster_pipeline(chk, tier, "TV_RasterCov", "C04")
+    # the public scan() iterator consumed through row-skipping adaptors
+    binpath = vf.build_harness()
+    sc = os.path.join(d, "scan.ndjson")
+    vf.run_harness(binpath, ["raster", "gen", "--seed", vf.seed(), "--tier", tier, "scan"], stdout_path=sc)
+    vf.exec_and_validate(chk, binpath, "raster", "TV_RasterScan", sc, jvms=6, what="scan() under an adaptor")
     chk.cov["exhaustive"] = True
     chk.cov["distinct_nontrivial"] = chk.cov["traces_validated_against_impl"]
     chk.cov["rule"] = ("every ordered vertex triple of the half-pixel lattice of a 3x3 (thorough: 4x4) pixel grid, an "
